@@ -391,6 +391,7 @@ func generate(c *rig.Ctx) {
 	}
 	evaluate(c, cases)
 	generateProbes(c)
+	lifecycle(c)
 	if c.Thorough() {
 		exhaustive(c)
 	}
